@@ -611,7 +611,7 @@ fn number_edits(v: &Value, path: &mut Vec<String>, out: &mut Vec<(Vec<String>, V
                 out.push((path.clone(), json!(u ^ (1 << 40))));
             } else if let Some(i) = n.as_i64() {
                 out.push((path.clone(), json!(i.wrapping_add(1))));
-                out.push((path.clone(), json!(-i)));
+                out.push((path.clone(), json!(i.wrapping_neg())));
             }
         }
         Value::String(s) => {
